@@ -605,6 +605,14 @@ class Interp:
                     st.heap[oid] = o
                     bv = bv.with_(obj=oid, view="whole", kind="arr")
                     st.env[base_t.id] = bv
+                elif isinstance(base_t, ast.Attribute) and isinstance(base_t.value, ast.Name) and base_t.value.id == "self" and base_t.attr in st.attrs and st.attrs[base_t.attr].obj is None and st.attrs[base_t.attr].kind in ("arr", "num"):
+                    # the same for an array expression bound to self.<attr> (self.sigma = y * np.ones(..); self.sigma[:, k] *= f)
+                    oid = ("self", base_t.attr)
+                    o = Obj(oid, dep=bv.dep, shape=bv.shape, cfg=bv.cfg)
+                    o.dom = dict(bv.dom)
+                    st.heap[oid] = o
+                    bv = bv.with_(obj=oid, view="whole", kind="arr")
+                    st.attrs[base_t.attr] = bv
         for sl in rest:
             sub_vals.append(self.eval_slice(sl, st))
         if len(rest) == 1:
@@ -1166,6 +1174,11 @@ class Interp:
         if v.tmpl:
             for lst in ("surfaces", "sections"):
                 if lst + "[i]" in v.tmpl or lst + "[0]" in v.tmpl:
+                    return lst
+        # a direct view of a per-element input/output such as inputs[name + "_S_ref"]
+        if isinstance(v.obj, tuple) and len(v.obj) > 1 and v.obj[0] in ("in", "out") and isinstance(v.obj[1], str):
+            for lst in ("surfaces", "sections"):
+                if lst + "[i]" in v.obj[1] or lst + "[0]" in v.obj[1]:
                     return lst
         return None
 
